@@ -1168,7 +1168,9 @@ package kcache
   at recv(resetch) set needRetrych := true
   at store(retrych) set needRetrych := false
   at call(stop) set liveSession := false
-  at call(newWatchSession) assert [sessions-run-under-the-watchers-cancellable-context-so-that-shutdown-ends-them] (= $0 {ctx})
+  ghost cctx : V := vnil
+  at call(WithCancel).after set cctx := $result0
+  at call(newWatchSession) assert [sessions-run-under-the-watchers-cancellable-context-so-that-shutdown-ends-them] (= $0 cctx)
   at call(newWatchSession) assert [the-previous-session-was-stopped-or-had-finished] (not liveSession)
   at call(newWatchSession) set needSession := false
   at call(newWatchSession).after set liveSession := true
